@@ -30,6 +30,20 @@ var (
 
 func expectingDict() *Exception { return ExceptionNewf(TypeError, "a dict is required") }
 
+// The text of a key for an error message: what python shows for it,
+// never the go representation of the object (which fmt would follow
+// for ever in a dict that contains itself)
+func keyText(key Object) string {
+	if str, ok := key.(String); ok {
+		return string(str)
+	}
+	text, err := ReprAsString(key)
+	if err != nil {
+		return "<" + key.Type().Name + ">"
+	}
+	return text
+}
+
 func init() {
 	StringDictType.Dict["items"] = MustNewMethod("items", func(self Object, args Tuple) (Object, error) {
 		err := UnpackTuple(args, nil, "items", 0, 0)
@@ -91,7 +105,7 @@ func init() {
 				return None, nil
 			}
 		}
-		return nil, ExceptionNewf(KeyError, "%v", args[0])
+		return nil, ExceptionNewf(KeyError, "%s", keyText(args[0]))
 	}, 0, "gets(key, default) -> If there is a val corresponding to key, return val, otherwise default")
 
 	StringDictType.Dict["update"] = MustNewMethod("update", func(self Object, args Tuple, kwargs StringDict) (Object, error) {
@@ -246,17 +260,17 @@ func (d StringDict) M__getitem__(key Object) (Object, error) {
 			return res, nil
 		}
 	}
-	return nil, ExceptionNewf(KeyError, "%v", key)
+	return nil, ExceptionNewf(KeyError, "%s", keyText(key))
 }
 
 func (d StringDict) M__delitem__(key Object) (Object, error) {
 	str, ok := key.(String)
 	if !ok {
-		return nil, ExceptionNewf(KeyError, "%v", key)
+		return nil, ExceptionNewf(KeyError, "%s", keyText(key))
 	}
 	_, ok = d[string(str)]
 	if !ok {
-		return nil, ExceptionNewf(KeyError, "%v", key)
+		return nil, ExceptionNewf(KeyError, "%s", keyText(key))
 	}
 	delete(d, string(str))
 	return None, nil
@@ -265,7 +279,7 @@ func (d StringDict) M__delitem__(key Object) (Object, error) {
 func (d StringDict) M__setitem__(key, value Object) (Object, error) {
 	str, ok := key.(String)
 	if !ok {
-		return nil, ExceptionNewf(KeyError, "FIXME can only have string keys!: %v", key)
+		return nil, ExceptionNewf(KeyError, "FIXME can only have string keys!: %s", keyText(key))
 	}
 	d[string(str)] = value
 	return None, nil
@@ -316,7 +330,7 @@ func (a StringDict) M__ne__(other Object) (Object, error) {
 func (a StringDict) M__contains__(other Object) (Object, error) {
 	key, ok := other.(String)
 	if !ok {
-		return nil, ExceptionNewf(KeyError, "FIXME can only have string keys!: %v", key)
+		return nil, ExceptionNewf(KeyError, "FIXME can only have string keys!: %s", keyText(other))
 	}
 
 	if _, ok := a[string(key)]; ok {
